@@ -144,6 +144,8 @@ class Machine(Interp):
             if i == len(node.values) - 1:
                 return v
             t = ops.truth(v)
+            if COVERAGE is not None:
+                COVERAGE.add((fr.globals.get("__name__", "?"), f"{node.lineno}:{node.col_offset}:boolop-operand{i}-{'true' if t else 'false'}"))
             if isinstance(node.op, ast.And) and not t:
                 return v
             if isinstance(node.op, ast.Or) and t:
@@ -185,7 +187,11 @@ class Machine(Interp):
     def e_IfExp(self, node, fr):
         t = yield from self.eval(node.test, fr)
         if ops.truth(t):
+            if COVERAGE is not None:
+                COVERAGE.add((fr.globals.get("__name__", "?"), f"{node.lineno}:{node.col_offset}:ifexp-then"))
             return (yield from self.eval(node.body, fr))
+        if COVERAGE is not None:
+            COVERAGE.add((fr.globals.get("__name__", "?"), f"{node.lineno}:{node.col_offset}:ifexp-else"))
         return (yield from self.eval(node.orelse, fr))
 
     def e_Lambda(self, node, fr):
@@ -549,7 +555,11 @@ class Machine(Interp):
     def s_If(self, node, fr):
         t = yield from self.eval(node.test, fr)
         if ops.truth(t):
+            if COVERAGE is not None:
+                COVERAGE.add((fr.globals.get("__name__", "?"), f"{node.lineno}:{node.col_offset}:if-true"))
             return (yield from self.exec_block(node.body, fr))
+        if COVERAGE is not None:
+            COVERAGE.add((fr.globals.get("__name__", "?"), f"{node.lineno}:{node.col_offset}:if-false"))
         return (yield from self.exec_block(node.orelse, fr))
 
     def s_Assert(self, node, fr):
